@@ -163,6 +163,8 @@ type Run struct {
 	OnStep  func()                        // invariants, channel polling — runs while everything is quiescent
 	OnIdle  func(now time.Time)           // nothing is enabled: every runnable actor has run
 	OnPick  func()                        // before each scheduling choice (controller-side events)
+	Prefer  func(en []*simrt.Parked) *simrt.Parked // optional bias: return the gate to release next, or nil
+	LastKind string                       // kind of the gate released in the previous step
 	OnClock func(before, after time.Time) // called around clock advances
 	Keep    bool                          // keep trace
 
@@ -566,7 +568,13 @@ func (r *Run) Loop(done func() bool, idleLimit time.Duration) {
 		if r.OnPick != nil {
 			r.OnPick()
 		}
-		p := r.choose(en)
+		var p *simrt.Parked
+		if r.Prefer != nil {
+			p = r.Prefer(en) // scenario-specific bias towards interleavings right after a state change
+		}
+		if p == nil {
+			p = r.choose(en)
+		}
 		dec := r.decideFault(p)
 		if dec.Fault == fStall {
 			if r.Faults.StallForever {
@@ -579,6 +587,7 @@ func (r *Run) Loop(done func() bool, idleLimit time.Duration) {
 			continue
 		}
 		r.lastActor = p.Actor
+		r.LastKind = p.Kind
 		r.sched = append(r.sched, fmt.Sprintf("%d %s %s %s f=%d", r.Step, p.Actor, p.Kind, p.Site, dec.Fault))
 		if r.Keep || p.Kind != "y" {
 			r.Logf("run %s at %s %s fault=%d", p.Actor, p.Kind, p.Site, dec.Fault)
